@@ -93,7 +93,7 @@ func init() {
 				Bound: "two sibling keys symbolic at once over the alphabet {$,a,x}, length <= 3 (quick) / 4 (thorough), assumed different"},
 		},
 		Assume:  pipeAssume,
-		Outside: "strings longer than N, non-ASCII bytes (the Latin-1 lower-case clause of validateString is decoded by the engine but no harness puts non-ASCII bytes in yet), three or more simultaneously arbitrary strings, deeper trees",
+		Outside: "strings longer than N; non-ASCII bytes in the symbolic string (the two-byte UTF-8 clause of the reserved-word check is covered under C07_latin1); three or more simultaneously arbitrary strings; deeper trees",
 	})
 	reg(propSpec{
 		ID: "C07",
@@ -104,6 +104,8 @@ func init() {
 				Bound: "lower layer with $required at any subset of {map value, nested map value, list entry}; upper layer overriding any subset, or mentioning the map without the marker"},
 			{Pkg: "bkl", Func: "HarnessC07_hidden", Tiers: "qt", Covers: []string{"hidden.checked"},
 				Bound: "an unknown directive-shaped string (every such printable string <= 6 / 9 bytes) as value, key or list entry (next to $required) under $output: false"},
+			{Pkg: "bkl", Func: "HarnessC07_latin1", Tiers: "qt", Covers: []string{"latin1.lower", "latin1.other"},
+				Bound: "\"$\" followed by EVERY two-byte UTF-8 sequence C2/C3 xx (Latin-1 supplement), optionally one more byte, as value, key and list entry: rejected iff the rune is a lower-case letter, passed through unchanged otherwise"},
 			{Pkg: "bkl", Func: "HarnessC07_encode", Tiers: "qt", Covers: []string{"encode.checked"},
 				Bound: "the same strings inside an $encode: json subtree: evaluation must fail"},
 		},
